@@ -185,6 +185,10 @@ def build_scen(config="asan"):
                         extra_cflags=["-DVCHILD_EMBEDDED"])
 
 
+def build_opts(config="asan"):
+    return build_engine(config, "opts", ["opts.c"])
+
+
 if __name__ == "__main__":
     try:
         print(build_vchild())
